@@ -124,13 +124,15 @@ def r2(repo, chk):
     vt = dr.calls(name="self._retry.validate_token")
     chk.ob("R2", "datagram_received validates retry tokens", len(vt) == 1, "", dr.loc(dr.node))
     cfg = dr.cfg
-    # with retry enabled (`self._retry is not None` true edge) every path to the constructor passes validate_token's normal return
-    tests = [st for st in dr.stmts(lambda s: isinstance(s, ast.If)) if norm(st.test) == "self._retry is not None"]
-    ok = len(tests) == 1 and bool(vt)
+    # with retry enabled every path to the constructor passes validate_token's normal return (paths are pruned by the
+    # assumption, so nested and flattened forms of the retry tests are the same to this rule)
+    RETRY_ON = natom("self._retry is not None")
+    ok = bool(vt)
     if ok:
-        t = tests[0]
         done = cfg.done_of(vt[0])
-        ok = not cfg.reaches(cfg.tedge[t], cfg.node_of(ctor[0]), avoid={done}) and inside(vt[0], t)
+        ok = not dr.reaches_assuming(cfg.entry, cfg.node_of(ctor[0]), [RETRY_ON], avoid={done}) and RETRY_ON in dr.guard_atoms(vt[0])
+    wr = [f"{st.lineno}" for st, t, v in dr.assigns(chain="self._retry")]
+    ok = ok and not wr
     chk.ob("R2", "with retry enabled no connection state is created unless validate_token returned normally", ok, "a path from the retry branch reaches QuicConnection(...) without a validated token", dr.loc(ctor[0]))
     for v in vt:
         hs = dr.enclosing_handlers(v)
@@ -142,8 +144,14 @@ def r2(repo, chk):
     ok = kw.get("original_destination_connection_id") == "original_destination_connection_id" and kw.get("retry_source_connection_id") == "retry_source_connection_id"
     chk.ob("R2", "the connection is created with the connection IDs recovered from the token", ok, f"{kw}", dr.loc(ctor[0]))
     # no token: the retry branch answers with a Retry packet and returns
-    nt = [st for st in dr.stmts(lambda s: isinstance(s, ast.If)) if norm(st.test) == "not header.token"]
-    ok = len(nt) == 1 and isinstance(nt[0].body[-1], ast.Return) and any(call_name(c) == "encode_quic_retry" for c in ast.walk(nt[0]) if isinstance(c, ast.Call))
+    rc = dr.calls(name="encode_quic_retry")
+    ok = len(rc) == 1
+    if ok:
+        at = dr.guard_atoms(rc[0])
+        ok = RETRY_ON in at and ("header.token", False) in at and not cfg.reaches(cfg.done_of(rc[0]), cfg.node_of(ctor[0]))
+        ok = ok and not dr.reaches_assuming(cfg.entry, cfg.node_of(ctor[0]), [RETRY_ON, ("header.token", False)])
+        snd = [c for c in dr.calls(name="self._transport.sendto") if inside(rc[0], c)]
+        ok = ok and len(snd) == 1
     chk.ob("R2", "an Initial without a token is answered with a Retry and creates no state", ok, "", dr.loc(dr.node))
     ct = [c for c in dr.calls(name="self._retry.create_token")]
     ok = len(ct) == 1 and [norm(a) for a in ct[0].args] == ["addr", "header.destination_cid", "source_cid"]
@@ -247,16 +255,21 @@ def r3(repo, chk):
         chk.ob("R3", "wait_connected returns at once when the handshake already completed", ok, "", wc.loc(st))
         ok = any(a[0] == "self._closed.is_set()" and a[1] is False for a in at)
         chk.ob("R3", "wait_connected does not create a waiter after the connection terminated", ok, "a future created after ConnectionTerminated was processed is never completed: the caller waits for ever", wc.loc(st))
-    for fn, aw in ((wc, "self._connected_waiter"), (Fn(repo, P + "ping"), "waiter")):
+    _pg = Fn(repo, P + "ping")
+    _mk = [norm(t) for st, t, v in _pg.assigns() if isinstance(v, ast.Call) and call_name(v) == "self._loop.create_future" and isinstance(t, ast.Name)]
+    PW = _mk[0] if len(_mk) == 1 else "waiter"
+    for fn, aw in ((wc, "self._connected_waiter"), (_pg, PW)):
         awaits = [n for n in fn.nodes(ast.Await)]
         ok = bool(awaits) and all(isinstance(a.value, ast.Call) and call_name(a.value) == "asyncio.shield" and norm(a.value.args[0]) == aw for a in awaits)
         chk.ob("R3", f"{fn.qual.split('.')[-1]} awaits its future through asyncio.shield", ok, "cancelling the awaiting task cancels the shared future; completing it later raises InvalidStateError out of the datagram / timer callback and the remaining events of that batch (termination included) are lost", fn.loc(fn.node))
     for branch, how, what in ((term, "set_exception", "ConnectionTerminated"), (natom("isinstance(event, events.HandshakeCompleted)"), "set_result", "HandshakeCompleted")):
-        comp = [c for c in pe.calls(suffix=how) if in_branch(c, branch) and norm(c.func.value) == "waiter" and ("self._connected_waiter is not None", True) in pe.guard_atoms(c)]
+        # the local that holds the future taken out of the slot may have any name
+        comp = [c for c in pe.calls(suffix=how) if in_branch(c, branch) and isinstance(c.func.value, ast.Name) and ("self._connected_waiter is not None", True) in pe.guard_atoms(c)]
         chk.ob("R3", f"_process_events completes the connect waiter on {what}", len(comp) == 1, "", pe.loc(pe.node))
         for c in comp:
             clear = [st for st, t, v in pe.assigns(chain="self._connected_waiter") if isinstance(v, ast.Constant) and v.value is None and in_branch(st, branch)]
-            grab = [st for st, t, v in pe.assigns(chain="waiter") if norm(v) == "self._connected_waiter" and in_branch(st, branch)]
+            grab = [st for st, t, v in pe.assigns(chain=c.func.value.id) if in_branch(st, branch) and pe.before(st, c) and not any(isinstance(p, (ast.For, ast.While)) and in_branch(p, branch) for p in _ancestors(st))]
+            grab = grab if all(norm(st.value) == "self._connected_waiter" for st in grab) else []
             ok = len(clear) == 1 and len(grab) == 1 and pe.before(grab[0], clear[0]) and pe.before(clear[0], c)
             chk.ob("R3", f"{what}: the connect slot is emptied before the future is completed (no second completion)", ok, "", pe.loc(c))
     flag = [st for st, t, v in pe.assigns(chain="self._connected") if isinstance(v, ast.Constant) and v.value is True]
@@ -264,10 +277,11 @@ def r3(repo, chk):
     chk.ob("R3", "the handshake-completed flag is set on the event itself, not only when somebody is already waiting", ok, f"guards {pe.lexical_guards(flag[0], expand=False) if flag else None}: wait_connected() called after the handshake never returns", pe.loc(pe.node))
     # --- ping waiters
     pg = Fn(repo, P + "ping")
-    store = [st for st in pg.stmts(lambda s: isinstance(s, ast.Assign)) if norm(st.targets[0]) == "self._ping_waiters[uid]" and norm(st.value) == "waiter"]
-    mk = [st for st, t, v in pg.assigns(chain="waiter") if isinstance(v, ast.Call) and call_name(v) == "self._loop.create_future"]
     sp = pg.calls(name="self._quic.send_ping")
-    ok = len(store) == 1 and len(mk) == 1 and len(sp) == 1 and norm(sp[0].args[0]) == "uid" and pg.before(store[0], sp[0])
+    uid = pg.expand(sp[0].args[0], 1) if len(sp) == 1 and sp[0].args else "uid"
+    store = [st for st in pg.stmts(lambda s: isinstance(s, ast.Assign)) if isinstance(st.targets[0], ast.Subscript) and norm(st.targets[0].value) == "self._ping_waiters" and pg.expand(st.targets[0].slice, 1) == uid and norm(st.value) == PW]
+    mk = [st for st, t, v in pg.assigns(chain=PW) if isinstance(v, ast.Call) and call_name(v) == "self._loop.create_future"]
+    ok = len(store) == 1 and len(mk) == 1 and len(sp) == 1 and uid == f"id({PW})" and pg.before(store[0], sp[0])
     chk.ob("R3", "ping() registers its future under the uid it sends", ok, "", pg.loc(pg.node))
     for st in mk:
         ok = any(a[0] == "self._closed.is_set()" and a[1] is False for a in pg.guard_atoms(st))
@@ -275,7 +289,10 @@ def r3(repo, chk):
     ackb = natom("isinstance(event, events.PingAcknowledged)")
     pops = [c for c in pe.calls(name="self._ping_waiters.pop") if in_branch(c, ackb)]
     res = [c for c in pe.calls(suffix="set_result") if in_branch(c, ackb)]
-    ok = len(pops) == 1 and len(res) == 1 and norm(pops[0].args[0]) == "event.uid" and len(pops[0].args) == 2 and ("waiter is not None", True) in pe.guard_atoms(res[0]) and pe.before(pops[0], res[0])
+    ok = len(pops) == 1 and len(res) == 1 and norm(pops[0].args[0]) == "event.uid" and len(pops[0].args) == 2 and isinstance(res[0].func.value, ast.Name) and (f"{res[0].func.value.id} is not None", True) in pe.guard_atoms(res[0]) and pe.before(pops[0], res[0])
+    if ok:
+        w = res[0].func.value.id
+        ok = [norm(v) for st, t, v in pe.assigns(chain=w) if in_branch(st, ackb)] == [norm(pops[0])]
     chk.ob("R3", "PingAcknowledged removes the waiter from the table before completing it", ok, "", pe.loc(pe.node))
     exc = [c for c in pe.calls(suffix="set_exception") if in_branch(c, term) and any(isinstance(p, ast.For) and norm(p.iter) == "self._ping_waiters.values()" for p in _ancestors(c))]
     clr = [c for c in pe.calls(name="self._ping_waiters.clear") if in_branch(c, term)]
@@ -324,7 +341,7 @@ def r4(repo, chk):
     ok = len(send) == 1 and any(isinstance(p, ast.For) and "self._quic.datagrams_to_send" in norm(p.iter) for p in _ancestors(send[0]))
     chk.ob("R4", "transmit sends every datagram the connection hands out", ok, "", tr.loc(tr.node))
     ts = Fn(repo, P + "_transmit_soon")
-    ok = any(norm(v) == "self._loop.call_soon(self.transmit)" and ("self._transmit_task is None", True) in ts.lexical_guards(st, expand=False) for st, t, v in ts.assigns(chain="self._transmit_task"))
+    ok = any(norm(v) == "self._loop.call_soon(self.transmit)" and ("self._transmit_task is None", True) in ts.guard_atoms(st) for st, t, v in ts.assigns(chain="self._transmit_task"))
     clr = any(isinstance(v, ast.Constant) and v.value is None for st, t, v in tr.assigns(chain="self._transmit_task"))
     chk.ob("R4", "a deferred transmit is scheduled at most once and re-enabled by transmit itself", ok and clr, "", ts.loc(ts.node))
     qe = Fn(repo, P + "quic_event_received")
@@ -344,5 +361,8 @@ def r4(repo, chk):
     ok = [norm(c) for c in ad.calls()][:2] == ["self.protocol._quic.send_stream_data(self.stream_id, data)", "self.protocol._transmit_soon()"]
     chk.ob("R4", "a stream writer hands its bytes to the connection unchanged and schedules a transmit", ok, "", ad.loc(ad.node))
     we = Fn(repo, "asyncio.protocol:QuicStreamAdapter.write_eof")
-    ok = any("end_stream=True" in norm(c) for c in we.calls(name="self.protocol._quic.send_stream_data")) and any(isinstance(r, ast.Return) and ("self._closing", True) in we.guard_atoms(r) for r in we.returns())
+    sends = [c for c in we.calls(name="self.protocol._quic.send_stream_data") if "end_stream=True" in norm(c)]
+    marks = [st for st, t, v in we.assigns(chain="self._closing") if isinstance(v, ast.Constant) and v.value is True]
+    # sent only while not yet closing, and the flag is set on the way (early-return or nested form alike)
+    ok = len(sends) == 1 and ("self._closing", False) in we.guard_atoms(sends[0]) and len(marks) == 1 and ("self._closing", False) in we.guard_atoms(marks[0]) and (we.before(marks[0], sends[0]) or we.always_after(sends[0], marks[0]))
     chk.ob("R4", "write_eof sends the end of stream once", ok, "", we.loc(we.node))
